@@ -252,7 +252,7 @@ impl Prop for C12 {
          applied to all 49 points of the grid {-3..3}^2: Point::transform(cascade of Transform::from_instance) must equal the composed integer maps (reflect, rotate CCW, translate; refs/geom.rs) exactly; at depth 1 also equal to cascade(translate, cascade(rotate, reflect_vert)); \
          Layout::flatten of the nested hierarchy (triangle, rectangle, path in the leaf) must give the images of the points, with the triangle's orientation sign flipped exactly when the composition has determinant -1. \
          Words of depth >= 2 are also laid out with SIBLING placements (top holds mid@w0 and leaf@w_last, mid holds one leaf per remaining letter) and the flattened triangles compared as a multiset with each path's own composition. \
-         SEEDED: the same with offsets/points up to +-2^30, and general angles against a range-reduced sin/cos reference with tolerance 0.5+1e-5. distinct_nontrivial = distinct (word, offsets) chains."
+         SEEDED: the same with offsets/points up to +-2^30, and general angles against a range-reduced sin/cos reference with tolerance 0.5+1e-5, through cascade and through Layout::flatten of the nested hierarchy (vertex k of the flattened polygon/path is the image of vertex k, rounded once; path width unchanged); for every placement Transform::from_instance must equal cascade(translate, cascade(rotate, reflect_vert)) entry for entry. distinct_nontrivial = distinct (word, offsets) chains."
             .into()
     }
     fn assumptions(&self) -> Vec<String> {
